@@ -3,17 +3,19 @@ from common import T_COMMON
 CFG = dict(
     theorems=["readObj_ranges_sum", "readObj_faces_content", "readObj_noMatlessAfterMat", "obj_reload_strict", "obj_resave_faces", "obj_resave_positions", "obj_resave_corners", "obj_resave_corners_uniform", "readObj_corners", "readObj_normals_complete", "obj_roundtrip_struct",
               "obj_roundtrip_carry", "obj_roundtrip", "readObj_transport", "obj_roundtrip_text", "obj_reload", "obj_shared_offset_breaks",
-              "obj_matless_after_mat_witness", "obj_empty_mesh_not_last_witness"],
+              "obj_matless_after_mat_witness", "obj_empty_mesh_not_last_witness",
+              "obj_resave_literal"],
+    helper_theorems=["readObj_resolves_at_face"],
+    modules=["PolyVerif.Props.C05", "PolyVerif.Props.C05Resave"],
     streams=[dict(name="c05", n=dict(quick=300, thorough=10000))],
     trusted=T_COMMON + [
         "text layer: the driver's lexer (bufio.ScanLines, strings.Fields, strconv.Atoi/ParseFloat(.,32), parseObjFaceComponent) and printer (strconv 'f' -1 = shortest round-tripping decimal, computed with exact rational arithmetic) are hand transcriptions in lean/Driver/C05.lean, tied text-exactly by the c05.write / c05.read correspondence on every run; they are not the subject of the theorems",
         "Group.ftoks is a ghost field of the reader model (face lines per group); no other field depends on it",
     ],
     residue=[
-        "load->save content: obj_resave_faces (count), obj_resave_positions (positions), and now obj_resave_corners: for EVERY accepted input the saved text has, corner by corner in order, the input corner's position, its texture coordinate iff every corner of its group has one, its normal likewise (savedCorner), all resolvable; obj_resave_corners_uniform: for texts whose groups each use one corner shape the saved text has exactly the input's corners. These are the content of the oracle predicate Resaves in FINAL-POOL form (each corner resolved against the whole v/vt/vn pool of its text, groups = the reader's groups); the literal Bool Resaves (pool at the time of the face, segments split at every g line, per-segment keepComplete) is evaluated by the oracle c05.holds.resave together with ResavesCorners (= the theorem statement compiled) but its equivalence with the final-pool form on accepted inputs is not proved",
+        "load->save: PROVED in round 2 in the literal form (obj_resave_literal: for every accepted input the Bool Resaves the oracle c05.holds.resave evaluates is true: same face count, every corner resolved against the pools AT THE TIME OF ITS FACE, input split at every g line, keepComplete per stretch), in addition to the final-pool forms obj_resave_corners / obj_resave_corners_uniform / obj_resave_positions / obj_resave_faces; nothing of the re-save clause remains unproved at the level of structured lines",
         "the on-disk path obj.Save / SaveAll (+ .mtl via WriteMaterials) -> obj.Load (fs.go, mat_reader.go) is NOT modelled; it is exercised under os.MkdirTemp by oracle c05.holds.fs_materials (per-triangle material record name|Ns|Kd|map_Kd; colours restricted to 0/255 because .mtl colour printing keeps 3 figures)",
         "the print/parse LAWS of the text layer are hypotheses of obj_roundtrip_text (corner tokens: pc' (show c) = ok c; scalars: come back as rt x), not proved for the Go strconv / strings functions; that the driver's lexer/printer (= the Go code, by the text-exact correspondence) satisfy them is observed on every run; names are carried unchanged in the model (blank handling of g / usemtl names lives in the lexer). 'float32 precision' = rt; observed: print-then-parse differs from float32(x) by one float32 ulp on exact ties",
-        "per-corner content of the SAVED TEXT for arbitrary accepted texts (predicate Resaves: faces of the saved text resolve to the same positions, vt/vn kept iff complete) is oracle-checked, not proved as such; proved instead: face count (obj_resave_faces), what the first load's tables contain (readObj_corners, readObj_normals_complete) and that load->save->load returns the first load's scene corner by corner (obj_reload; hypothesis: every returned group has a face, material names survive blank removal)",
         "known finding: a mesh without material ranges after a mesh with ranges reads back with the carried material (obj_roundtrip_carry states the exact behaviour; obj_roundtrip needs NoMatlessAfterMat)",
         "known finding: a zero-triangle mesh that is not last loses its group (hypothesis NonemptyButLast); an empty mesh list reads back as one empty group",
         "material names with blanks are written without them; nil material is written and read back as DefaultDiffuse (names compared as written: matName)",
